@@ -177,10 +177,18 @@ def parse_svg(doc):
                 if e.tag != "circle" or e.get("class") != "dot":
                     raise Unparseable("dot-layer child")
                 cx, cy = e.get("cx"), e.get("cy")
-                if (cx is None) == (cy is None):
-                    raise Unparseable("dot with both/neither of cx, cy")
-                raw = cx if cx is not None else cy
-                P.dots.append({"pos": float(raw), "raw": raw, "orient": "h" if cx is not None else "v",
+                if cx is None and cy is None:
+                    raise Unparseable("dot with neither cx nor cy")
+                if cx is not None and cy is not None:
+                    # a fully specified centre: along/across by the axis orientation (an absent attribute is 0 in SVG)
+                    if P.axis is None or P.axis["orient"] is None:
+                        raise Unparseable("dot with cx and cy before the axis is known")
+                    raw, other = (cx, cy) if P.axis["orient"] == "h" else (cy, cx)
+                    orient = P.axis["orient"]
+                else:
+                    raw, other = (cx, "0") if cx is not None else (cy, "0")
+                    orient = "h" if cx is not None else "v"
+                P.dots.append({"pos": float(raw), "raw": raw, "orient": orient, "across": float(other),
                                "colour": _rgb(_style(e.get("style")).get("fill")), "size": e.get("r")})
             key = cls
         else:
